@@ -45,3 +45,41 @@ Proof. exact old_cache_survives_reorg. Qed.
 
 Example C06_example : on_frontier_adds ast_init [OAdd zero_id (h 1, 1) [] [PPut [5] [1]]; OAdd (h 1, 1) (h 2, 2) [] []].
 Proof. cbn. repeat split; reflexivity. Qed.
+
+(* ---- consensus statistics (consensus/points.go): the points module stores period and epoch statistics in the
+   consensus DB, which survives rollbacks and restarts; a stored point is reused only if its end hash is the hash of
+   the tick's end block on the current chain. For EVERY history of momentum insertions, rollbacks (any depth),
+   restarts and queries — hence whatever was computed and stored on abandoned branches — every answer is the answer of
+   a node that computes it from the current chain with an empty DB (Points.fresh_period / fresh_epoch). The one
+   exception is spelled out in [epoch_answer_ok]: while the frontier is the last momentum before the end of an epoch
+   that an abandoned branch had already finished, the epoch answer is the one for the finished epoch with the same
+   content (it cannot arise after adopting a strictly longer branch; the node suite never observes it).
+   [Hf] is the momentum hash as a function of (previous hash, timestamp, producer), assumed injective (hash collision
+   freedom); [election] is ElectionByTick as a function of the chain before the end of the tick (C05). *)
+From ZV Require Import Points PointsProofs.
+Theorem C06_points_coherent :
+  forall (gts dur mult : Z) (election : list mom -> Z -> option elect) (Hf : Z -> Z -> Z -> Z) (gen : mom),
+  (forall a b c a' b' c' : Z, Hf a b c = Hf a' b' c' -> a = a' /\ b = b' /\ c = c') ->
+  (forall a b c : Z, Hf a b c <> m_hash gen) -> 0 < dur -> 0 < mult ->
+  forall ops, wf_ops gts dur mult election Hf (init gen) ops ->
+  answers_ok gts dur mult election Hf gen (init gen) ops.
+Proof. intros. eapply points_coherent; eauto. apply inv_init. Qed.
+
+(* computing an epoch point never runs below the first election tick of the epoch and never divides by zero *)
+Theorem C06_epoch_point_never_panics :
+  forall (gts dur mult : Z) (election : list mom -> Z -> option elect) (Hf : Z -> Z -> Z -> Z) (gen : mom),
+  (forall a b c a' b' c' : Z, Hf a b c = Hf a' b' c' -> a = a' /\ b = b' /\ c = c') ->
+  (forall a b c : Z, Hf a b c <> m_hash gen) -> 0 < mult ->
+  forall c e, valid Hf gen c -> fresh_epoch gts dur mult election c e <> PPanic.
+Proof. exact epoch_never_panics. Qed.
+
+(* non-vacuity: for every hash function the history "momentum, period query, rollback, other momentum, epoch query,
+   restart, epoch query" is well formed *)
+Example C06_points_history_wf : forall gts dur mult election Hf gen,
+  let m1 := mkMom (Hf (m_hash gen) 10 1) (m_hash gen) 10 1 in
+  let m2 := mkMom (Hf (m_hash gen) 700 2) (m_hash gen) 700 2 in
+  wf_ops gts dur mult election Hf (init gen) [OInsert m1; OPeriod 0; ORollback 1; OInsert m2; OEpoch 0; ORestart; OEpoch 0].
+Proof.
+  intros. cbn [wf_ops wf_op]. rewrite !step_chain. cbn [init n_chain app length firstn Nat.sub last_opt].
+  repeat split; try (cbn; lia); try (eexists; repeat split; reflexivity).
+Qed.
